@@ -139,10 +139,16 @@ def strip_comments(txt):
 
 
 def coq_make(targets, timeout=900, jobs=8):
-    """Build the given .vo targets (paths relative to coq/).  Returns (ok, log)."""
-    with Lock():
+    """Build the given .vo targets (paths relative to coq/).  Returns (ok, log).
+
+    The Makefile is regenerated under a global lock; the build itself only takes a lock per
+    property directory, so a slow proof in one property never blocks the others.  Every make
+    runs under a timeout and a 16 GB address-space limit."""
+    with Lock("coq"):
         coq_makefile()
-        rc, out = sh(["make", "-j%d" % jobs] + targets, cwd=COQ, timeout=timeout)
+    dirs = sorted({t.split("/")[0] for t in targets}) or ["none"]
+    with Lock("coq-" + "-".join(dirs)):
+        rc, out = sh("ulimit -v 16000000; exec make -j%d %s" % (jobs, " ".join(targets)), cwd=COQ, timeout=timeout)
     return rc == 0, out
 
 
@@ -195,7 +201,7 @@ def coq_run(name, text, timeout=300, pid="misc"):
     with open(path, "w") as f:
         f.write(text)
     rc, out = sh(
-        "ulimit -s unlimited 2>/dev/null; exec coqc -Q %s PV -w -notation-overridden,-deprecated-hint-without-locality %s" % (COQ, path),
+        "ulimit -s unlimited 2>/dev/null; ulimit -v 12000000; exec coqc -Q %s PV -w -notation-overridden,-deprecated-hint-without-locality %s" % (COQ, path),
         timeout=timeout, cwd=d,
     )
     return rc, out
